@@ -45,7 +45,15 @@ MANIFEST = dict(
          "...' is computed over every path of the function (recursive predicates over the fields of a dtype by induction, all(...) over every field "
          "without a filter); (j) module-level constants bound once and named tuples made on the path are read through; whether a path opens the "
          "file for reading is decided by evaluating the path's tests on the mode over the finite set of modes; (k) a stripper may hand its work to "
-         "another function of the repository, which is then judged the same way and reported under its own name.",
+         "another function of the repository, which is then judged the same way and reported under its own name; (l) R04.6: on every path of "
+         "Recfile.read, recfile.read, SFile.read and sfile.read that obtains an array from the record reader (an attribute assigned from Recfile(...) / "
+         "Records(...), or an object made by such a call) the returned value derives from that array, nothing is stored into it or a view of it after "
+         "the read, no in-place method rewrites it and no value-changing operation (strip family, case, padding, rounding, sorting ...) lies between the "
+         "reader and the caller; (m) R04.7: the function whose result Recfile.open stores as the row count adds exactly one per line of a text file on "
+         "every outcome of every test on the line (len(readlines()), sum(1 for ...) without a filter are equivalent); (n) R04.8: the offset "
+         "Records::read_sfile_header returns is, by abstract interpretation of the stream position over {integer, end of the END line + k, depends on the "
+         "bytes read, unknown}, the end of the END line plus exactly the number of bytes SFile._write_header puts after it, so it cannot depend on what "
+         "the first row begins with.",
     note="Not decided: libc printf/scanf numeric round trip and libc's own spellings of NaN/inf (special values the code spells itself are decided). "
          "Assumes LP64 and that stdio calls succeed. Bounded shapes, not a proof for all sizes. The whitespace-directive hazard is a recorded known finding.",
     technique="static analysis: bounded symbolic execution of the C++ reader/writer and format-table code over the clang AST (trace comparison), "
@@ -4253,6 +4261,7 @@ def read_back_unchanged(chk, repo):
         if not any(v is True for v in vs):
             vs.append(None)
             notes.append("no path on which the reader's array was seen to be returned")
+        notes = list(dict.fromkeys(notes))
         chk.ob("R04.6", key, _verdict(vs), fi.where(), m + ((" (%s)" % "; ".join(notes[:3])) if notes else ""))
 
 
@@ -4389,6 +4398,7 @@ def text_row_count(chk, repo):
     if not any(v is True for v in vs):
         vs.append(None)
         notes.append("no text path on which a line was seen to be counted")
+    notes = list(dict.fromkeys(notes))
     chk.ob("R04.7", key, _verdict(vs), fi.where(), m + ((" (%s)" % "; ".join(notes[:3])) if notes else ""))
 
 
